@@ -355,10 +355,50 @@ def div(a, b):
                 raise PyRaise("ZeroDivisionError", "float division by zero")
             return F(Or_(a2.nan, b2.nan), a2.v / b2.v, py=True)
         return F(Or_(a2.nan, b2.nan, b2.v == 0), a2.v / b2.v)
+    pd = _proportional_div(a2, b2)
+    if pd is not None:
+        return pd
     den = b2.re * b2.re + b2.im * b2.im
     return C(Or_(a2.nan, b2.nan, den == 0),
              (a2.re * b2.re + a2.im * b2.im) / den,
              (a2.im * b2.re - a2.re * b2.im) / den)
+
+
+def _proportional_div(a, b):
+    """(k1 * Z) / (k2 * Z) = k1 / k2 for a complex lazy sum Z = (zr, zi) and real k1, k2 (non-finite when k2 == 0
+    or Z == 0): an exact algebraic identity that spares the solver a rational-function proof."""
+    c = cur()
+    sums = c.memo.get("sums")
+    if not sums:
+        return None
+    seen = set()
+    for info in list(sums.values()):
+        if len(info.comps) != 2:
+            continue
+        zr, zi_ = info.comps
+        key = zr.sexpr()
+        if key in seen:
+            continue
+        seen.add(key)
+        one, zero = z3.RealVal(1), z3.RealVal(0)
+        ks = []
+        ok = True
+        for (re, im) in ((a.re, a.im), (b.re, b.im)):
+            re_s, im_s = z3.simplify(re), z3.simplify(im)
+            k = z3.simplify(z3.substitute(re_s, (zr, one), (zi_, zero)))
+            k2 = z3.simplify(z3.substitute(im_s, (zr, zero), (zi_, one)))
+            if k.sexpr() != k2.sexpr():
+                ok = False
+                break
+            # linearity check: re == k*zr and im == k*zi syntactically after simplification
+            if z3.simplify(re_s - k * zr).sexpr() != "0.0" or z3.simplify(im_s - k * zi_).sexpr() != "0.0":
+                ok = False
+                break
+            ks.append(k)
+        if ok:
+            k1, k2 = ks
+            return C(Or_(a.nan, b.nan, k2 == 0, And_(zr == 0, zi_ == 0)), k1 / k2, z3.RealVal(0))
+    return None
 
 
 def floordiv(a, b):
@@ -939,6 +979,7 @@ class Seq:
         self._fn = fn
         self.label = label
         self.version = 0
+        self.meta = {}
 
     def get(self, k):
         return self._fn(k)
